@@ -133,12 +133,15 @@ pub struct GuestRegionStub { pub d: RegionDesc }
 pub struct GuestAddress(pub u64);
 #[derive(Clone, Copy)]
 pub struct RegionMsg { pub guest_phys_addr: u64, pub memory_size: u64, pub user_addr: u64, pub mmap_offset: u64 }
-impl RegionMsg {
-    // VhostUserMemoryRegion::mmap_region (message.rs): maps (file, mmap_offset, memory_size) — proved-by: reading; assumed: A-VMM
-    // assumed: A-VMM VhostUserMemoryRegion::mmap_region maps (file, mmap_offset, memory_size) (message.rs; may fail)
+// vm-memory's FileOffset / MmapRegion::from_file: the boundary below VhostUserMemoryRegion::mmap_region (which is extracted)
+pub struct FileOffset { pub file: Ghost<int>, pub off: u64 }
+impl FileOffset { pub fn new(file: FileStub, start: u64) -> (r: FileOffset) ensures r.file@ == file.id@, r.off == start { FileOffset { file: file.id, off: start } } }
+pub struct MmapErr;
+impl MmapRegionStub {
+    // assumed: A-VMM MmapRegion::from_file maps `size` bytes of the file starting at the given offset (may fail)
     #[verifier::external_body]
-    pub fn mmap_region(&self, file: FileStub) -> (r: VhostUserResult<MmapRegionStub>)
-        ensures r is Ok ==> r->Ok_0 == (MmapRegionStub { size: self.memory_size, file: file.id@, off: self.mmap_offset })
+    pub fn from_file(fo: FileOffset, size: usize) -> (r: core::result::Result<MmapRegionStub, MmapErr>)
+        ensures r is Ok ==> r->Ok_0 == (MmapRegionStub { size: size as u64, file: fo.file@, off: fo.off })
     { unimplemented!() }
 }
 // R6 target of GuestRegionMmap::new(mmap, GuestAddress(gpa)).ok_or(..)
